@@ -125,7 +125,8 @@ func c05HasTags(have, want []string) bool {
 	return true
 }
 
-// apply returns false when the command must be rejected (weight without a match).
+// apply returns false when the command must be rejected (never for this alphabet:
+// a weight command that matches nothing changes nothing).
 func (t *c05Tab) apply(c c05Cmd) bool {
 	host := strings.ToLower(c.host)
 	switch c.kind {
@@ -178,7 +179,7 @@ func (t *c05Tab) apply(c c05Cmd) bool {
 	case "weight":
 		r := t.find(host, c.path)
 		if r == nil {
-			return false
+			return true // matches nothing: changes nothing
 		}
 		var idx []int
 		for i, x := range r.T {
@@ -187,7 +188,7 @@ func (t *c05Tab) apply(c c05Cmd) bool {
 			}
 		}
 		if len(idx) == 0 {
-			return false
+			return true // matches nothing: changes nothing
 		}
 		for _, i := range idx {
 			r.T[i].Fixed = c.w / float64(len(idx))
